@@ -1563,7 +1563,12 @@ def boot_time():
         for line in f:
             if line.startswith(b'btime'):
                 ret = float(line.strip().split()[1])
-                BOOT_TIME = ret
+                # Remember only the first value: it is used as a fixed
+                # offset by Process.create_time(), hence by process
+                # identity (==, hash(), is_running()), which must not
+                # change when the system clock is updated.
+                if BOOT_TIME is None:
+                    BOOT_TIME = ret
                 return ret
         msg = f"line 'btime' not found in {path}"
         raise RuntimeError(msg)
